@@ -254,7 +254,7 @@ func (t *Ty) Src(decls map[int]string) string {
 }
 
 var untypedLit = map[string]string{
-	"u-nil": "nil", "u-int": "1", "u-string": `"s"`, "u-bool": "true", "u-float": "1.5", "u-rune": "'a'", "u-complex": "1i",
+	"u-nil": "nil", "u-int": "1", "u-string": `"s"`, "u-bool": "true", "u-float": "2.0", "u-rune": "'a'", "u-complex": "1i",
 }
 
 // Expr renders an expression of the type (as a call argument); tuples need a helper function.
